@@ -13,11 +13,11 @@ struct Stream {
     Stream(const std::string& n, double a) : name(n), alpha(a), nmask(0), zeros(0), same(0), npairs(0) { memset(hist, 0, sizeof hist); }
     // per-coordinate freshness: a coordinate that equals the same coordinate of the previous mask (probability 2^-32 for a fresh uniform mask)
     void maskvec(const Torus32* a, int n) { if ((int)prev.size() == n) { for (int i = 0; i < n; i++) if ((uint32_t)a[i] == prev[i]) same++; npairs += n; } prev.assign((const uint32_t*)a, (const uint32_t*)a + n); }
-    void err(int32_t e) { if (alpha == 0) { if (e == 0) zeros++; batch.push_back(e); } else batch.push_back(lround((double)e / (alpha * 4294967296.0 / 64.0))); if (batch.size() >= 64) flush(); }
+    void err(int32_t e) { if (e == 0) zeros++; if (alpha == 0) batch.push_back(e); else batch.push_back(lround((double)e / (alpha * 4294967296.0 / 64.0))); if (batch.size() >= 64) flush(); }
     void mask(uint32_t w) { hist[w >> 28]++; nmask++; }
     void flush() { if (batch.empty()) return; VH_B; vh_i("seq", seqn++); VH_C; vh_s("e", "Errs"); VH_C; vh_s("s", name.c_str()); VH_C; fputs("\"v\":[", vh_out); for (size_t i = 0; i < batch.size(); i++) fprintf(vh_out, "%s%ld", i ? "," : "", batch[i]); fputs("]", vh_out); VH_E; batch.clear(); }
     void end() { flush(); long s32 = alpha == 0 ? 0 : lround(alpha * 4294967296.0); if (s32 > 2000000000L) s32 = 2000000000L;
-        VH_B; vh_i("seq", seqn++); VH_C; vh_s("e", "StreamEnd"); VH_C; vh_s("s", name.c_str()); VH_C; vh_i("s32", s32); VH_C; vh_i("exact", alpha == 0 ? 1 : 0); VH_C; fputs("\"hist\":[", vh_out); for (int i = 0; i < 16; i++) fprintf(vh_out, "%s%ld", i ? "," : "", hist[i]); fprintf(vh_out, "],\"nmask\":%ld,\"same\":%ld,\"npairs\":%ld", nmask, same, npairs); VH_E; }
+        VH_B; vh_i("seq", seqn++); VH_C; vh_s("e", "StreamEnd"); VH_C; vh_s("s", name.c_str()); VH_C; vh_i("s32", s32); VH_C; vh_i("exact", alpha == 0 ? 1 : 0); VH_C; fputs("\"hist\":[", vh_out); for (int i = 0; i < 16; i++) fprintf(vh_out, "%s%ld", i ? "," : "", hist[i]); fprintf(vh_out, "],\"nmask\":%ld,\"same\":%ld,\"npairs\":%ld,\"zeros\":%ld", nmask, same, npairs, zeros); VH_E; }
 };
 static std::string fmt(const char* f, double a, int x = 0) { char b[96]; snprintf(b, sizeof b, f, a, x); return b; }
 static void rand_ev(const char* op, uint64_t t0, uint64_t args, uint64_t out) {
@@ -62,6 +62,12 @@ static void fresh(int per) {
         for (int q = 0; q < per / 2 + 600; q++) { Torus32 mu = (Torus32)(q * 0x01234567u); if (q % 2) lweSymEncrypt(c2, mu, al, k2); else lweSymEncryptWithExternalNoise(c2, mu, 0., al, k2);
             if (q % 2) s.err(lwePhase(c2, k2) - mu); for (int i = 0; i < 4; i++) s.mask((uint32_t)c2->a[(q * 4 + i) % nn]); s.maskvec(c2->a, nn); }
         s.end(); delete_LweSample(c2); delete_LweKey(k2); delete_LweParams(lp2); }
+      // the external-noise entry point with messages at and next to 1/2 (the torus wraps there) and noise of either sign supplied by the caller
+      { LweParams* lp3 = new_LweParams(33, 0, 1); LweKey* k3 = new_LweKey(lp3); lweKeyGen(k3); LweSample* c3 = new_LweSample(lp3); double al = ldexp(1., -14);
+        std::mt19937 own(12345u); std::normal_distribution<double> nd(0., al); uint32_t msgs[4] = {0x80000000u, 0x7fffffffu, 0x80000001u, 0u};
+        Stream s("lwe-ext/half", al);
+        for (int q = 0; q < per / 2 + 600; q++) { Torus32 mu = (Torus32)msgs[q % 4]; lweSymEncryptWithExternalNoise(c3, mu, nd(own), al, k3); s.err(lwePhase(c3, k3) - mu); s.mask((uint32_t)c3->a[q % 33]); s.mask((uint32_t)c3->a[(q * 7 + 3) % 33]); s.maskvec(c3->a, 33); }
+        s.end(); delete_LweSample(c3); delete_LweKey(k3); delete_LweParams(lp3); }
       // a key-switching key with odd output dimension from the public generator: rows are fresh encryptions under the output key
       LweParams* pi = new_LweParams(40, 0, 1); LweParams* po = new_LweParams(33, ldexp(1., -20), 1); LweKey* ki = new_LweKey(pi); LweKey* ko = new_LweKey(po); lweKeyGen(ki); lweKeyGen(ko);
       LweKeySwitchKey* ks = new_LweKeySwitchKey(40, 6, 2, po); lweCreateKeySwitchKey(ks, ki, ko);
